@@ -10,3 +10,4 @@ def check(run):
     crules.merge_rules(run, r1, None, ast)
     crules.reserve_rules(run, r2, ast)
     crules.alloc_rules(run, r2, ast)
+    crules.model_rules(run, r2, ast, parts=("params",))
